@@ -26,6 +26,8 @@
 (*                             are dropped)                                *)
 (*   BundleHoldsArticles       articles can be posted to a bundle          *)
 (*   CategoryHoldsChildren     items can be created below a category       *)
+(*   RecursiveIgnored          the "delete child articles" flag of a delete  *)
+(*                             article request is ignored                  *)
 (*   DeleteLeavesLinks         deleting an article does not repair the     *)
 (*                             prev/next/parent/first-child of the others  *)
 (*   FirstChildSticks          the parent's first-child field is set only  *)
@@ -180,11 +182,21 @@ Post(s) ==
   /\ out' = [op |-> "post", path |-> s.path, id |-> NewId(nodes[s.path].arts), parent |-> s.parent]
   /\ UNCHANGED uname
 
-(* DeleteArticle (411): removes that article and nothing else (DeleteLeavesLinks); no such article: nothing. *)
+(* DeleteArticle (411): removes that article and nothing else (DeleteLeavesLinks); no such article: nothing.
+   s.rec is the request's "delete child articles" field 337: -1 absent, 0, 1.  RecursiveIgnored: the implementation
+   ignores it (only the named article goes).  The statement ("removes exactly that item") and the protocol (the
+   article with its replies) give two readings for rec = 1; DelArtTreeRec is the second one - the article and its
+   reply subtree, i.e. the articles reachable from it over the recorded parent - which the trace specification accepts
+   as well. *)
+RECURSIVE Thread(_, _)
+Thread(a, S) == LET kids == {i \in DOMAIN a \ S : a[i].parent \in S} IN IF kids = {} THEN S ELSE Thread(a, S \cup kids)
 DelArtHit(s) == s.path \in DOMAIN nodes /\ s.id \in DOMAIN ArtsAt(s.path)
 DelArtTree(s) ==
   LET a == ArtsAt(s.path) IN
   IF DelArtHit(s) THEN [nodes EXCEPT ![s.path].arts = [i \in DOMAIN a \ {s.id} |-> a[i]]] ELSE nodes
+DelArtTreeRec(s) ==
+  LET a == ArtsAt(s.path) IN
+  IF DelArtHit(s) THEN [nodes EXCEPT ![s.path].arts = [i \in DOMAIN a \ Thread(a, {s.id}) |-> a[i]]] ELSE nodes
 DeleteArticle(s) ==
   /\ nodes' = DelArtTree(s)
   /\ disk' = nodes'
